@@ -33,6 +33,9 @@ def body_text(body):
     return ' or '.join('role:' + r for r in roles)
 
 
+EMPTY_N = [0]
+
+
 class Box:
     def __init__(self, rng, main_name='policy.yaml', make_dirs=True):
         self.root = tempfile.mkdtemp(prefix='verif_fs_')
@@ -103,7 +106,11 @@ class Box:
         self.clock += 1
         p = self.path(f)
         with open(p, 'w') as fh:
-            fh.write(self.rng.choice(['', '', '{}', '# empty\n', '---\n']))
+            self.rng.choice(['', '', '{}', '# empty\n', '---\n'])       # (keeps the random stream of earlier rounds)
+            # every spelling of "no definitions" is used in turn: nothing, an empty mapping, comments only, a bare
+            # document marker, blank lines
+            EMPTY_N[0] += 1
+            fh.write(['# empty\n', '', '{}', '---\n', '#\n\n# nothing here\n', '\n\n'][EMPTY_N[0] % 6])
         os.utime(p, (BASE + self.clock, BASE + self.clock))
         self._stamp_dirs()
         return self.clock
